@@ -280,15 +280,20 @@ func (client *client) setError(err error) {
 			if client.version == packets.Version5 {
 				if code, ok := err.(*codes.Error); ok {
 					if client.IsConnected() {
-						// send Disconnect
-						client.write(&packets.Disconnect{
+						// send Disconnect.
+						// Do not block here: if the out channel is full because the write loop is stuck (the peer does not
+						// read), nobody else can set the error and close the client while errOnce is held.
+						select {
+						case client.out <- &packets.Disconnect{
 							Version: packets.Version5,
 							Code:    code.Code,
 							Properties: &packets.Properties{
 								ReasonString: code.ReasonString,
 								User:         kvsToProperties(code.UserProperties),
 							},
-						})
+						}:
+						default:
+						}
 					}
 				}
 			}
